@@ -1,9 +1,78 @@
 import PyamgV.Driver.Util
-/-! Driver ops of extension task E19 (op names prefixed `ext_`). -/
+import PyamgV.Driver.C17
+import PyamgV.Model.ExtC17CkR3Relax
+import PyamgV.Model.ExtC17CkR3Split
+import PyamgV.Model.ExtC17CkR3Schwarz
+import PyamgV.Model.ExtC17CkR3Sa
+import PyamgV.Model.ExtC17CkR3Cr
+import PyamgV.Model.ExtC17CkR3Misc
+import PyamgV.Model.ExtC17CkR3CC
+import PyamgV.Model.ExtC17CkR3Interior
+/-! Driver ops of extension task E19 (property C17; op names prefixed `ext_c17r3_`): the checked (`Ck`)
+models of `Model/ExtC17CkR3*.lean`, same output conventions as `Driver/C17.lean` (values, then
+`;ok` / `;fault`; `nonterm` when an outer strided loop runs out of fuel). -/
 namespace PyamgV.Drv.ExtE19
-open PyamgV PyamgV.Drv
+open PyamgV PyamgV.Drv PyamgV.Ck PyamgV.Drv.C17
+
+def outI (r : Ck (Array Int)) : String := showInts r.val ++ flag r.ok
+def crOps : C17.CrOps Rat := ⟨fun a b => decide (b < a), fun i => (i : Rat)⟩
 
 def handle : List String → Option String
+  | ["ext_c17r3_bsr_jacobi_indexed", om, bs, n, ap, aj, ax, b, idx, x] =>
+    let r := C17.bsrJacobiIndexed kOps (parseRats om) (mkG n ap aj ax) (parseRats b) (parseInts idx) (nat bs) (parseRats x)
+    some <| showRats r.val.1 ++ flag r.ok
+  | ["ext_c17r3_block_jacobi_indexed", om, bs, n, ap, aj, ax, b, dinv, idx, x] =>
+    let r := C17.blockJacobiIndexed kOps (parseRats om) (mkG n ap aj ax) (parseRats b) (parseRats dinv) (parseInts idx) (nat bs)
+      (parseRats x)
+    some <| showRats r.val.1 ++ flag r.ok
+  | ["ext_c17r3_rs_cf_splitting_pass2", n, sp, sj, split] =>
+    some <| outI (C17.rsPass2 (nat n) (parseInts sp) (parseInts sj) (parseInts split))
+  | ["ext_c17r3_approx_ideal_restriction_pass1", dist, rp, cp, cj, cpts, split] =>
+    some <| outI (C17.airPass1 (parseInts rp) (parseInts cp) (parseInts cj) (parseInts cpts) (parseInts split) (int dist))
+  | ["ext_c17r3_extract_subblocks", n, ap, aj, ax, tx, tp, sj, sp, nsd] =>
+    some <| outR (C17.extractSubblocks kOps (mkG n ap aj ax) (parseRats tx) (parseInts tp) (parseInts sj) (parseInts sp) (nat nsd))
+  | ["ext_c17r3_overlapping_schwarz_csr", n, ap, aj, ax, b, tx, tp, sj, sp, nsd, nrows, x, s0, s1, s2] =>
+    match C17.schwarz kOps (mkG n ap aj ax) (parseRats b) (parseRats tx) (parseInts tp) (parseInts sj) (parseInts sp) (nat nsd) (int nrows)
+        (int s0) (int s1) (int s2) (nat nsd + 1) (parseRats x) with
+    | none => some "nonterm"
+    | some r => some <| showRats r.val.1 ++ flag r.ok
+  | ["ext_c17r3_satisfy_constraints_helper", rpb, cpb, nd, bt, ub, btbinv, n, sp, sj, sx] =>
+    let r := C17.satisfyConstraints kOps (nat rpb) (nat cpb) (nat nd) (parseRats bt) (parseRats ub) (parseRats btbinv) (mkG n sp sj sx)
+    some <| showRats r.val.1 ++ flag r.ok
+  | ["ext_c17r3_calc_BtB", nd, nnodes, cpb, bsq, bsqcols, x, sp, sj] =>
+    let r := C17.calcBtB kOps (nat nd) (nat nnodes) (nat cpb) (parseRats bsq) (int bsqcols) (parseRats x) (parseInts sp) (parseInts sj)
+    some <| showRats r.val.1 ++ flag r.ok
+  | ["ext_c17r3_incomplete_mat_mult_bsr", na, ap, aj, ax, nb, bp, bj, bx, ns, sp, sj, sx, nbcol, browA, bcolA, bcolB] =>
+    let r := C17.incompleteMatMultBsr kOps (mkG na ap aj ax) (mkG nb bp bj bx) (mkG ns sp sj sx) (nat nbcol) (nat browA) (nat bcolA) (nat bcolB)
+    some <| showRats r.val.1 ++ flag r.ok
+  | ["ext_c17r3_cr_helper", ap, aj, bv, e, idx, split, gamma, th] =>
+    let r := C17.crHelper kOps crOps (parseInts ap) (parseInts aj) (parseRats bv) (parseRats e) (parseInts idx) (parseInts split)
+      (parseRats gamma) (parseRat th)
+    some <| showRats r.val.1 ++ ";" ++ showInts r.val.2.1 ++ ";" ++ showInts r.val.2.2.1 ++ ";" ++ showRats r.val.2.2.2 ++ flag r.ok
+  | ["ext_c17r3_apply_householders", bv, n, s0, s1, s2, z] =>
+    let B := parseRats bv
+    match C17.applyHouseholders kOps B (int n) (int s0) (int s1) (int s2) (B.size + 1) (parseRats z) with
+    | none => some "nonterm"
+    | some r => some <| showRats r.val.1 ++ flag r.ok
+  | ["ext_c17r3_householder_hornerscheme", bv, y, n, s0, s1, s2, z] =>
+    let B := parseRats bv
+    match C17.hornerScheme kOps B (parseRats y) (int n) (int s0) (int s1) (int s2) (B.size + 1) (parseRats z) with
+    | none => some "nonterm"
+    | some r => some <| showRats r.val.1 ++ flag r.ok
+  | ["ext_c17r3_apply_givens", bv, nrot, x] =>
+    some <| outR (C17.applyGivens kOps (parseRats bv) (int nrot) (parseRats x))
+  | ["ext_c17r3_floyd_warshall", n, ap, aj, ax, cc, l, m, a, nn, d, pp] =>
+    let r := C17.floydWarshall kOps (fun x y => decide (y < x)) (1 / (100000000000000 : Rat)) (mkG n ap aj ax) (parseInts cc) (parseInts l)
+      (parseInts m) (int a) (int nn) (parseRats d) (parseInts pp)
+    some <| showRats r.val.1 ++ ";" ++ showInts r.val.2 ++ flag r.ok
+  | ["ext_c17r3_connected_components", n, ap, aj, comps] =>
+    let r := C17.connectedComponents (nat n) (parseInts ap) (parseInts aj) (parseInts comps)
+    some <| showInts r.val.1 ++ ";" ++ toString r.val.2 ++ flag r.ok
+  | ["ext_c17r3_most_interior_nodes", n, ap, aj, ax, c, d, m, p] =>
+    let G : Ck.Csr (Option Rat) := ⟨nat n, parseInts ap, parseInts aj, (parseRats ax).map some⟩
+    let r := C17.mostInterior bOps (some 0) none G (G.n + 2) (parseInts c) (parseORats d) (parseInts m) (parseInts p)
+    some <| (if r.val.2.2.2.2 then showInts r.val.1.1 ++ ";" ++ (if r.val.1.2 then "1" else "0") ++ ";" ++ showORats r.val.2.1 ++ ";" ++
+      showInts r.val.2.2.1 ++ ";" ++ showInts r.val.2.2.2.1 else "nonterm") ++ flag r.ok
   | _ => none
 
 end PyamgV.Drv.ExtE19
